@@ -620,6 +620,41 @@ theorem equivariant_capture (r : N → N') (hr : Function.Injective r) (params r
 
 end
 
+section
+variable {N N' : Type} [DecidableEq N] [DecidableEq N']
+
+/-- The type parameters a generic function / method / class method is rendered with (`Function.templates`, `Method.templates`:
+    type variables of parameters and return type in order of FIRST USE, a method without those of its class) commute with every
+    injective renaming — the C++ `template<typename …>` header follows the signature, not the alphabet. -/
+theorem equivariant_templates (r : N → N') (hr : Function.Injective r) (klass used : List N) :
+    Capture.templatesOf (klass.map r) (used.map r) = (Capture.templatesOf klass used).map r :=
+  Capture.binds_map r hr klass used
+
+end
+
+/-- swapping the two one-letter names `a` and `b` -/
+def swapNames : Str → Str := fun s => if s = ['a'] then ['b'] else if s = ['b'] then ['a'] else s
+
+theorem swapNames_injective : Function.Injective swapNames := by
+  intro x y h
+  unfold swapNames at h
+  by_cases hxa : x = ['a'] <;> by_cases hxb : x = ['b'] <;> by_cases hya : y = ['a'] <;> by_cases hyb : y = ['b'] <;>
+    simp_all
+
+/-- REGRESSION (seeded mutation): ordering the type variables by name (`sorted(…, key=domain_name)`) is NOT equivariant — the
+    injective renaming that swaps `a` and `b` turns the header `<a, b>` of `def f(x: b, y: a)` into `<a, b>` again instead of `<b, a>`. -/
+theorem templates_sorted_counterexample :
+    ¬ ∀ (r : Str → Str), Function.Injective r → ∀ klass used : List Str,
+      Capture.templatesSorted (klass.map r) (used.map r) = (Capture.templatesSorted klass used).map r := by
+  intro h
+  have h1 := h swapNames swapNames_injective [] [['b'], ['a']]
+  revert h1
+  decide +kernel
+
+/-- non-vacuity: `def zip_with(self, left: T2, right: T1) -> Pair[T2, T1]` in `class Shelf(Generic[T0])` has the header `<T2, T1>` -/
+example : Capture.templatesOf [['T','0']] [['T','0'], ['T','2'], ['T','1'], ['T','2'], ['T','1']] = [['T','2'], ['T','1']] := by
+  decide +kernel
+
 /-- REGRESSION (seeded mutation): with the parameters removed by `startswith(<parameter names>)` a captured variable whose name
     begins with a parameter's name (`factor_bias` beside the parameter `factor`) drops out of the capture list. -/
 theorem capture_prefix_counterexample :
